@@ -18,7 +18,7 @@ func init() {
 		Gen: func(t *rapid.T) interface{} {
 			c := &SchedCase{QuiesMs: quiesMs()}
 			c.Rules = genRules(t, 2, 8, 12, 0, 50)
-			c.Builds = genBuilds(t, len(c.Rules))
+			genBuildsReplacing(t, c)
 			c.Pool = rapid.Bool().Draw(t, "pool")
 			if c.Pool {
 				genPoolSize(t, c)
